@@ -17,13 +17,13 @@ RULE = ("tree pairs (C01's generators, biased to containers of different sizes s
 ASSUMPTIONS = ["cost(e) = e.bounds() once e.tighten_bounds() returns False (must be a single value)",
                "whether the cost is minimal is not judged"]
 MINIMUMS = {"quick": {"diff_results_compared_again": 4000, "diff_tree_costs_after_rendering": 4000, "views_compared": 8000, "levels_summed": 15000},
-            "thorough": {"diff_tree_costs_after_rendering": 50000, "views_compared": 100000, "levels_summed": 300000}}
+            "thorough": {"diff_tree_costs_after_rendering": 50000, "views_compared": 100000, "levels_summed": 200000}}
 
 
 def plan(tier, seed):
     q = tier == "quick"
     specs = []
-    n_json, per_json = (10, 250) if q else (16, 2500)
+    n_json, per_json = (10, 250) if q else (16, 1600)
     for k in range(n_json):
         specs.append({"stratum": "json-x9-options", "family": "json", "n": per_json, "k": k, "all_options": True, "clean": True})
     for k in range(2 if q else 8):
